@@ -31,6 +31,19 @@ chk("C06", "E1", "explicit enumeration of every {T,F,E} assignment to collection
     "All collections of length 0..4 (thorough 0..5) of each shape with every assignment of element outcomes x any/all x 4 binding modes x shadowing name choices x body templates x nesting: the fold result, early exit, binding tables, scoping and the error for non-iterables agree with the reference; value aliases over lists also equal the unrolled disjunction/conjunction evaluated by the implementation itself.",
     "Reference as C01; for maps with an erroring and a decisive element both outcomes are allowed (order unspecified; consistency is C14).", "DESIGN.md 5 C06")
 
+chk("C07", "E1", "explicit enumeration of every combination of per-part selector spellings for all paths over a tricky part alphabet; parser Path equality and outcome equality across spellings on the real code",
+    "Every path of 1..3 parts over {a,A,b,0,01,a/b,a~b,a.b,'a b',' a',e-acute,''} with >=2 spellings x every per-part spelling combination (dotted, digits, [\"..\"], [`..`], blanks inside brackets, escapes, JSON pointer with ~0/~1) x 8 operators + quantifier collection + alias-relative body selectors: the parser returns exactly the intended Path for each spelling and Evaluate's outcome is identical across spellings on every document (distinct leaf per path, so case/blank variants are told apart).",
+    "Outcome classes; bounded alphabet/depth; differential on the implementation.", "DESIGN.md 5 C07")
+chk("C08", "E1", "explicit enumeration of all hidden-content assignments (two-run non-interference groups) x nestings x tag configurations x expressions on the real Evaluate/Execute, plus reference conformance",
+    "All 81 assignments of a 3-value alphabet to the 4 hideable fields x 6 nestings x 5 configurations x ~110 expressions: one outcome per group of data equal on visible fields; reference agreement (hidden never resolves to its content, renamed only under its tag name); Filter keeps all-or-none of a group.",
+    "Reference as C01; hidden-content alphabet of 3 values.", "DESIGN.md 5 C08")
+chk("C17", "E1", "explicit enumeration of container shapes x element kinds x every {T,F,E} element assignment x filter expressions on the real Execute, compared element-wise with the real Evaluate",
+    "All containers of length 0..4 (thorough 0..5) of 8 container shapes x 4 element kinds with every assignment of T/F/E-valued elements x 30 expressions: result type, kept elements/keys and order, first error => (nil, err), input untouched, no aliasing of the input's storage, nil filter, idempotence, E/not(E) partition; nil/non-containers => error without panic.",
+    "Differential against Evaluate (decided by C01); bounded sizes.", "DESIGN.md 5 C17")
+chk("C18", "E1", "explicit enumeration of ALL option sequences up to length 3 (thorough 4) over a 15-letter option alphabet x expressions x data on the real CreateEvaluator/Evaluate vs the reference under the effective configuration",
+    "Every sequence (subset, order, repetition, nil options) of the option alphabet: creation fails exactly when the effective budget is N-1; otherwise the 1st/2nd/3rd Evaluate equal the reference under the effective configuration (last wins, order irrelevant, neutral settings == absence, hook replacement visible to operators).",
+    "Reference as C01 incl. hook family; N found by bisection over the public option.", "DESIGN.md 5 C18")
+
 REASON_NOT_BUILT = "check not built yet (in progress) - will be decided by bounded exhaustive exploration, see DESIGN.md"
 
 def main():
